@@ -1,5 +1,6 @@
 import ChythonModel.Model.C16Patcher
 import ChythonModel.Model.C16Worklist
+import ChythonModel.Model.C16Ions
 /-!
 Line-protocol driver for C16 (all ints after the op).
 
@@ -18,6 +19,12 @@ Line-protocol driver for C16 (all ints after the op).
 * `worklist limit nI i*nI nRows (item nR (rid key stop nS s*nS)*nR)*nRows`
      → exhaustive mode of `Reactor.__call__` over the recorded step system: `ok k… | k…` = keys yielded by the literal FIFO
        loop (`C16W.worklist`, fuel = rows + 1) `|` by the level-by-level `worklistBfs`; `fuel` if the loop ran out
+
+* `oneshot nI i*nI nRows (item nR (rid key stop nS s*nS)*nR)*nRows` → one-shot mode: `ok k…` = keys yielded by `C16W.oneShot`
+
+* `ions mode nM (id cls charge ankey ctkey)*nM` → one side of `contract_ions()`: mode 0 reactants (`contractSide`), mode 1
+     products (`contractProducts`, keys = position among the reactants' anions / cations, -1 if absent): `ok g ; g …`, each
+     group = ids of the molecules united, in union order
 
 `<template>` = `deleteAtoms isQuery nP (n masked)*nP nRA (n kind z iso charge radical nh h*nh)*nRA
                nRB (n deg (m no o*no)*deg)*nRB`, kind 0 any, 1 query, 2 element, 3 unsupported.
@@ -218,6 +225,40 @@ def handleWorklist (xs : List Int) : String :=
         | some out =>
           "ok " ++ showNats (out.map S.key) ++ " | " ++ showNats ((C16W.worklistBfs S limit init).map S.key)
 
+/-- `id cls charge ankey ctkey` -/
+def pIon : P (C16I.Ion × Int × Int) := fun xs =>
+  match xs with
+  | id :: cls :: ch :: ak :: ck :: rest => if id < 0 || cls < 0 then none else some ((⟨id.toNat, cls.toNat, ch⟩, ak, ck), rest)
+  | _ => none
+
+def handleIons (xs : List Int) : String :=
+  match xs with
+  | mode :: rest =>
+    match pCounted pIon rest with
+    | none => "badwire"
+    | some (rows, _) =>
+      let mols := rows.map (·.1)
+      let keyOf (sel : C16I.Ion × Int × Int → Int) (m : C16I.Ion) : Int :=
+        match rows.find? (fun r => r.1.id == m.id) with
+        | some r => sel r
+        | none => -1
+      let res := if mode == 0 then C16I.contractSide mols
+                 else C16I.contractProducts (keyOf (·.2.1)) (keyOf (·.2.2)) mols
+      match res with
+      | .error _ => "err IndexError"
+      | .ok groups => "ok " ++ " ; ".intercalate (groups.map fun g => showNats (g.map (·.id)))
+  | [] => "badwire"
+
+def handleOneShot (xs : List Int) : String :=
+  match pCounted pNat xs with
+  | none => "badwire"
+  | some (init, r2) =>
+    match pCounted pRow r2 with
+    | none => "badwire"
+    | some (rows, _) =>
+      let S := C16W.tableSys rows
+      "ok " ++ showNats ((C16W.oneShot S init).map S.key)
+
 def showMolRes : Except PyErr Mol → String
   | .error e => showErr e
   | .ok m => "ok " ++ renderMol m
@@ -261,6 +302,8 @@ def handle (line : String) : String :=
             else showMolRes (unionR (flag != 0) a b)
           | _ => "badwire"
       | "worklist" => handleWorklist xs
+      | "oneshot" => handleOneShot xs
+      | "ions" => handleIons xs
       | "overlap" =>
         match pNat xs with
         | none => "badwire"
